@@ -260,9 +260,6 @@ func runTransfer(e *Env, cm *protocol.Mux, plans []*SessPlan, opt XferOpt) ([]*S
 				ls.sc = sc
 				mu.Lock()
 				ls.res.Accepted = true
-				if s, ok := sc.(*protocol.Session); ok {
-					ls.res.ServerUser = s.UserName()
-				}
 				mu.Unlock()
 				if opt.OnAccepted != nil {
 					opt.OnAccepted(p.Idx, sc)
@@ -272,6 +269,12 @@ func runTransfer(e *Env, cm *protocol.Mux, plans []*SessPlan, opt XferOpt) ([]*S
 				go func() { defer w2.Done(); writeLoop(sc, p, 1, ls.res, &mu) }()
 				go func() { defer w2.Done(); readLoop(sc, p, 0, ls.res, &mu, &opt, progress) }()
 				w2.Wait()
+				// the attributed user, once the session has carried traffic
+				if s, ok := sc.(*protocol.Session); ok {
+					mu.Lock()
+					ls.res.ServerUser = s.UserName()
+					mu.Unlock()
+				}
 			}()
 			wg.Wait()
 			if opt.NoClose || p.CloseBy < 0 {
